@@ -113,14 +113,17 @@ BOUNDARY_SHAPES_THOROUGH = [(101, 101), (201, 3), (3, 301), (100, 100), (103, 20
 INVALIDS = [None, -9999, 0, "NaN", float("nan"), 7.5, -1, 3, -0.25, 16777216]
 
 
-def gen_direct(rng, shape=None):
+def gen_direct(rng, shape=None, many=False):
     rows, cols = shape or rng.choice(SMALL_SHAPES)
     subpix = rng.choice([1, 1, 2, 4])
     nd = rng.choice([1, 2, 3, 3, 4, 5, 6]) if rows * cols < 400 else rng.choice([1, 2, 3])
-    d0 = rng.randrange(-5, 4)
+    if many:  # more disparity samples than a byte can index (wide intervals, subpix 4)
+        rows, cols = rng.choice([(2, 3), (3, 2), (1, 4)])
+        nd = rng.choice([257, 300, 513, 700])
+    d0 = rng.randrange(-5, 4) if not many else -(nd // (2 * subpix))
     disps = [d0 + k / subpix for k in range(nd)]
     is_max = rng.random() < 0.5
-    style = rng.choice(["ties", "ties", "wide", "quarters", "constant"])
+    style = rng.choice(["ties", "ties", "wide", "quarters", "constant"]) if not many else rng.choice(["wide", "wide", "ties"])
     if style == "ties":
         cost = np.array([[[rng.randrange(0, 3) for _ in range(nd)] for _ in range(cols)] for _ in range(rows)], dtype=float)
     elif style == "wide":
@@ -432,6 +435,9 @@ def run(ctx, report, status):
         report.count("direct_small")
         report.count("measure_max" if case["is_max"] else "measure_min")
         report.count(f"invalid_{case['invalid_cfg']}")
+    for _ in range(ctx.n(6, 60)):
+        check_case(ctx, report, gen_direct(rng, many=True), "direct")
+        report.count("direct_many_disparities")
     shapes = list(BOUNDARY_SHAPES_QUICK)
     if ctx.thorough:
         shapes += BOUNDARY_SHAPES_THOROUGH
